@@ -186,3 +186,177 @@ theorem fromAunts_position_traced (L : Nat) (hlen : ∀ x, (H x).length = L) :
               exact ⟨_, _, by simp, by simp, hc, hr2⟩
 
 end Tmv.Merkle
+
+namespace Tmv.Merkle
+variable (H : Bytes → Bytes)
+
+theorem mem_rootPre_take {f : Nat} {items : List Bytes} (h2 : 2 ≤ items.length) {x : Bytes}
+    (hx : x ∈ rootPre H f (items.take (splitPoint items.length))) : x ∈ rootPre H (f+1) items := by
+  match items, h2 with
+  | a :: b :: c, _ =>
+    simp only [rootPre, List.mem_cons, List.mem_append]
+    exact Or.inr (Or.inl hx)
+
+theorem mem_rootPre_drop {f : Nat} {items : List Bytes} (h2 : 2 ≤ items.length) {x : Bytes}
+    (hx : x ∈ rootPre H f (items.drop (splitPoint items.length))) : x ∈ rootPre H (f+1) items := by
+  match items, h2 with
+  | a :: b :: c, _ =>
+    simp only [rootPre, List.mem_cons, List.mem_append]
+    exact Or.inr (Or.inr hx)
+
+theorem head_mem_rootPre {f : Nat} {items : List Bytes} (h2 : 2 ≤ items.length) :
+    (1 :: (rootF H f (items.take (splitPoint items.length)) ++ rootF H f (items.drop (splitPoint items.length))))
+      ∈ rootPre H (f+1) items := by
+  match items, h2 with
+  | a :: b :: c, _ => simp [rootPre]
+
+/-- every byte string hashed by `computeHashFromAunts` on ANY claimed shape (same as `pathPre`;
+stated separately for the inclusion theorem, whose claimed (index,total) is arbitrary) -/
+theorem fromAunts_inclusion_traced (L : Nat) (hlen : ∀ x, (H x).length = L) :
+    ∀ (fuel : Nat) (items : List Bytes), items.length ≤ fuel → items ≠ [] →
+    ∀ (fuel' idx total : Nat) (leaf : Bytes) (aunts : List Bytes),
+      fromAunts H fuel' idx total (leafHash H leaf) aunts = some (rootF H fuel items) →
+      leaf ∈ items ∨
+        CollisionIn H ((0 :: leaf) :: pathPre H fuel' idx total (leafHash H leaf) aunts)
+          (rootPre H fuel items) := by
+  intro fuel
+  induction fuel with
+  | zero =>
+    intro items hle hne
+    cases items with
+    | nil => exact absurd rfl hne
+    | cons a t => simp at hle
+  | succ f ih =>
+    intro items hle hne fuel' idx total leaf aunts h
+    have hl : (leafHash H leaf).length = L := by simp [leafHash, hlen]
+    cases fuel' with
+    | zero => simp [fromAunts] at h
+    | succ g =>
+    match items, hne with
+    | [x], _ =>
+      simp only [rootF] at h
+      unfold fromAunts at h
+      unfold pathPre
+      split at h; · cases h
+      rename_i hnot
+      simp only [hnot, if_false]
+      split at h
+      · rename_i ht1
+        simp only [ht1, if_true]
+        split at h
+        · simp at h
+          by_cases hx : (0 :: leaf : Bytes) = 0 :: x
+          · left; simp [(List.cons.inj hx).2]
+          · right; exact ⟨0 :: leaf, 0 :: x, by simp, by simp [rootPre], hx, h⟩
+        · cases h
+      · rename_i ht1
+        simp only [ht1, if_false]
+        split at h; · cases h
+        rename_i last restRev hrev
+        simp only [hrev]
+        simp only at h
+        split at h
+        · rename_i hlt
+          simp only [hlt, if_true]
+          simp [Option.map_eq_some_iff] at h
+          obtain ⟨l, hl1, hl2⟩ := h
+          simp only [hl1]
+          right
+          refine ⟨1 :: (l ++ last), 0 :: x, by simp, by simp [rootPre], ?_, hl2⟩
+          intro hc; exact absurd (List.cons.inj hc).1 (by decide)
+        · rename_i hge
+          simp only [hge, if_false]
+          simp [Option.map_eq_some_iff] at h
+          obtain ⟨r, hr1, hr2⟩ := h
+          simp only [hr1]
+          right
+          refine ⟨1 :: (last ++ r), 0 :: x, by simp, by simp [rootPre], ?_, hr2⟩
+          intro hc; exact absurd (List.cons.inj hc).1 (by decide)
+    | a :: b :: c, _ =>
+      have hlen2 : 2 ≤ (a :: b :: c).length := by simp
+      obtain ⟨hk0, hk⟩ := splitPoint_lt hlen2
+      generalize hitems : (a :: b :: c) = items at *
+      have hroot : rootF H (f+1) items =
+          innerHash H (rootF H f (items.take (splitPoint items.length)))
+                      (rootF H f (items.drop (splitPoint items.length))) := by
+        subst hitems; simp [rootF]
+      rw [hroot] at h
+      have htl : (items.take (splitPoint items.length)).length = splitPoint items.length := by
+        simp; omega
+      have hdl : (items.drop (splitPoint items.length)).length = items.length - splitPoint items.length := by
+        simp
+      have hll := rootF_len H L hlen f (items.take (splitPoint items.length))
+      have hdr := rootF_len H L hlen f (items.drop (splitPoint items.length))
+      have hhead := head_mem_rootPre H (f := f) hlen2
+      unfold fromAunts at h
+      unfold pathPre
+      split at h; · cases h
+      rename_i hnot
+      simp only [hnot, if_false]
+      split at h
+      · rename_i ht1
+        simp only [ht1, if_true]
+        split at h
+        · simp at h
+          right
+          refine ⟨0 :: leaf, _, by simp, hhead, ?_, h⟩
+          intro hc; exact absurd (List.cons.inj hc).1 (by decide)
+        · cases h
+      · rename_i ht1
+        simp only [ht1, if_false]
+        split at h; · cases h
+        rename_i last restRev hrev
+        simp only [hrev]
+        simp only at h
+        split at h
+        · rename_i hlt
+          simp only [hlt, if_true]
+          simp [Option.map_eq_some_iff] at h
+          obtain ⟨l, hl1, hl2⟩ := h
+          simp only [hl1]
+          have hl' := fromAunts_len H L hlen _ _ _ _ _ _ hl hl1
+          by_cases hc : (1 :: (l ++ last) : Bytes) =
+              1 :: (rootF H f (items.take (splitPoint items.length)) ++ rootF H f (items.drop (splitPoint items.length)))
+          · obtain ⟨e1, _⟩ := List.append_inj (List.cons.inj hc).2 (by omega)
+            subst e1
+            rcases ih (items.take (splitPoint items.length)) (by rw [htl]; omega)
+                (by intro hh; rw [hh] at htl; simp at htl; omega) _ _ _ leaf _ hl1 with hm | hcol
+            · left; exact List.mem_of_mem_take hm
+            · right
+              refine hcol.mono H ?_ ?_
+              · intro x hx
+                simp only [List.mem_cons] at hx ⊢
+                rcases hx with hx | hx
+                · exact Or.inl hx
+                · exact Or.inr (Or.inr hx)
+              · intro x hx; exact mem_rootPre_take H hlen2 hx
+          · right; exact ⟨_, _, by simp, hhead, hc, hl2⟩
+        · rename_i hge
+          simp only [hge, if_false]
+          simp [Option.map_eq_some_iff] at h
+          obtain ⟨r, hr1, hr2⟩ := h
+          simp only [hr1]
+          have hrl := fromAunts_len H L hlen _ _ _ _ _ _ hl hr1
+          by_cases hc : (1 :: (last ++ r) : Bytes) =
+              1 :: (rootF H f (items.take (splitPoint items.length)) ++ rootF H f (items.drop (splitPoint items.length)))
+          · have h1 := (List.cons.inj hc).2
+            have hlastlen : last.length = L := by
+              have := congrArg List.length h1
+              simp [hrl, hll, hdr] at this
+              omega
+            obtain ⟨_, e2⟩ := List.append_inj h1 (by omega)
+            subst e2
+            rcases ih (items.drop (splitPoint items.length)) (by rw [hdl]; omega)
+                (by intro hh; rw [hh] at hdl; simp at hdl; omega) _ _ _ leaf _ hr1 with hm | hcol
+            · left; exact List.mem_of_mem_drop hm
+            · right
+              refine hcol.mono H ?_ ?_
+              · intro x hx
+                simp only [List.mem_cons] at hx ⊢
+                rcases hx with hx | hx
+                · exact Or.inl hx
+                · exact Or.inr (Or.inr hx)
+              · intro x hx; exact mem_rootPre_drop H hlen2 hx
+          · right; exact ⟨_, _, by simp, hhead, hc, hr2⟩
+
+end Tmv.Merkle
